@@ -822,6 +822,46 @@ func vfc44SplitOutput(per map[int64]vfc44Res) string {
 	return ""
 }
 
+// vfc44NameSplit looks for two series that agree on every label except __name__ and the "without" sharding
+// labels but are owned by different shards; returns a description or "".
+func vfc44NameSplit(data []vfc44Series, infos []*storepb.ShardInfo, pool *sync.Pool) string {
+	if len(infos) == 0 || infos[0].By {
+		return ""
+	}
+	set := map[string]bool{"__name__": true}
+	for _, l := range infos[0].Labels {
+		set[l] = true
+	}
+	type own struct {
+		shard int64
+		lset  string
+	}
+	home := map[string]own{}
+	for _, sr := range data {
+		owner := int64(-1)
+		for _, in := range infos {
+			m := in.Matcher(pool)
+			ok := m.MatchesLabels(sr.lset)
+			m.Close()
+			if ok {
+				owner = in.ShardIndex
+				break
+			}
+		}
+		var sig strings.Builder
+		sr.lset.Range(func(l labels.Label) {
+			if !set[l.Name] {
+				fmt.Fprintf(&sig, "%q=%q,", l.Name, l.Value)
+			}
+		})
+		if p, ok := home[sig.String()]; ok && p.shard != owner {
+			return fmt.Sprintf("series %s is in shard %d, series %s in shard %d", p.lset, p.shard, sr.lset.String(), owner)
+		}
+		home[sig.String()] = own{owner, sr.lset.String()}
+	}
+	return ""
+}
+
 // vfc44SelectorClass: does the program select series without pinning the metric name?
 func vfc44SelectorClass(q string) string {
 	expr, err := parser.ParseExpr(q)
@@ -981,10 +1021,13 @@ func TestVF_C44(t *testing.T) {
 				fp := o.symptom
 				if isResult {
 					mode := map[bool]string{true: "by", false: "without"}[o.infos[0].By]
-					if lbl := vfc44SplitOutput(o.perShard); lbl != "" {
-						// mechanism: one output series was computed, partially, in more than one shard
-						fp = "result:output-series-computed-in-several-shards | shard " + mode + " | " + vfc44SelectorClass(q)
-						o.what += "; output series " + lbl + " is produced by several shards"
+					if pair := vfc44NameSplit(data, o.infos, pool); pair != "" && !o.infos[0].By && vfc44SelectorClass(q) == "a selector does not pin the metric name" {
+						// root cause visible in the partition: aggregation/matching "without" ignores the metric name, the shard hash does not
+						fp = "result:series-differing-only-in-metric-name-are-in-different-shards | shard without | a selector does not pin the metric name"
+						o.what += "; " + pair
+						if lbl := vfc44SplitOutput(o.perShard); lbl != "" {
+							o.what += "; output series " + lbl + " is produced by several shards"
+						}
 					} else {
 						if shrunk < 60 {
 							shrunk++
